@@ -47,8 +47,8 @@ def execute_run(pid, P, r, binp, seed, tier, work, findings, breaks, cov):
     mode = r["mode"]
     xenv = dict(r.get("env") or {})
     tlog_path = None
-    if mode == "session" and pid in REPLAY_RELEVANT:
-        tlog_path = os.path.join(work, "session.tlog")
+    if mode in ("session", "conn") and pid in REPLAY_RELEVANT:
+        tlog_path = os.path.join(work, mode + ".tlog")
         xenv["VERIF_TLOG_FILE"] = tlog_path
     rc, out, ops, gout = vlib.run_harness(binp, mode, seed, n, tier, work, extra_env=xenv,
                                          timeout=r.get("timeout", 1500))
@@ -88,7 +88,7 @@ def execute_run(pid, P, r, binp, seed, tier, work, findings, breaks, cov):
     judge = JUDGES[r["judge"]]
     judge(pid, r, opl, gol, lel, metal, findings, breaks, cov, rec, seed)
     if tlog_path:
-        replay_session_traces(pid, tlog_path, findings, breaks, cov, rec, seed, r.get("env", {}))
+        replay_session_traces(pid, tlog_path, findings, breaks, cov, rec, seed, r.get("env", {}), conn=(mode == "conn"))
 
 
 def replay(pid, P, binp, path, work, findings, cov):
@@ -290,12 +290,17 @@ REPLAY_RELEVANT = {
     "C12": r"rLookup|rDecode|rDeliverSlot|cRm|cAdd|cSel2|\?pend",
     "C13": r"cNew|wRecv|wNotify|wWrite|wDone|\?seq|\?wlog",
     "C20": r"cFin|cCancelRec|nFin|hFin|rNfSel",
+    # connection model (Model/Conn, mode conn)
+    "C14": r"s[A-Z]|wRelease|wStart|shutdown|disconnect|\?sfirst|\?chan|\?dialing|\?client|\?spc|\?nextseq",
+    "C15": r"w[A-Z]|sRelease|\?wpc|\?waiting|\?client",
+    "C16": r"sAnnounce|sDelayDone|sRetryStart|\?spc",
 }
 
 
-def replay_session_traces(pid, tlog_path, findings, breaks, cov, rec, seed, mode_env):
-    """Site-level replay of every session of this run through Model/Transport.step."""
+def replay_session_traces(pid, tlog_path, findings, breaks, cov, rec, seed, mode_env, conn=False):
+    """Site-level replay of every session of this run through Model/Transport.step (Model/Conn.step for mode conn)."""
     import replay as rp
+    import creplay as crp
     try:
         text = open(tlog_path).read()
     except OSError:
@@ -308,12 +313,16 @@ def replay_session_traces(pid, tlog_path, findings, breaks, cov, rec, seed, mode
     bad = []
     for idx, fl, lines in sessions:
         try:
-            items, _ = rp.translate(lines)
-        except rp.Unsupported as e:
+            if conn:
+                body, _ = crp.translate(lines)
+                items = {0: body}
+            else:
+                items, _ = rp.translate(lines)
+        except (rp.Unsupported, crp.Unsupported) as e:
             stat["unsupported"] += 1
             unsup[str(e)[:80]] = unsup.get(str(e)[:80], 0) + 1
             continue
-        except rp.Unmapped as e:
+        except (rp.Unmapped, crp.Unmapped) as e:
             stat["unmapped"] += 1
             bad.append((idx, fl, -1, "unmapped: " + str(e), ""))
             continue
@@ -322,7 +331,7 @@ def replay_session_traces(pid, tlog_path, findings, breaks, cov, rec, seed, mode
             bad.append((idx, fl, -1, "translator failed: %r" % (e,), ""))
             continue
         for ep, body in items.items():
-            ops.append("replay " + body)
+            ops.append(("creplay " if conn else "replay ") + body)
             meta.append((idx, fl, ep))
     if ops:
         d = os.path.dirname(tlog_path)
@@ -349,6 +358,10 @@ def replay_session_traces(pid, tlog_path, findings, breaks, cov, rec, seed, mode
     cov["replay_endpoint_runs_ok"] = cov.get("replay_endpoint_runs_ok", 0) + stat["ok"]
     cov["replay_model_steps"] = cov.get("replay_model_steps", 0) + stat["model_steps"]
     rel = re.compile(REPLAY_RELEVANT.get(pid, "."))
+    if stat["endpoint_runs"] + stat["unmapped"] > 0 and \
+            5 * (stat["stuck"] + stat["differs"] + stat["unmapped"]) > stat["endpoint_runs"] + stat["unmapped"]:
+        # more than a fifth of the executions diverge: the site table no longer matches the code at all
+        rel = re.compile(".")
     mine, others = [], 0
     for idx, fl, ep, line, op in bad:
         m = re.search(r"`([^`]*)`", line)
@@ -359,13 +372,14 @@ def replay_session_traces(pid, tlog_path, findings, breaks, cov, rec, seed, mode
             others += 1
     rec["replay_divergences_elsewhere"] = others
     for idx, fl, ep, line, op in mine[:3]:
-        its = op[7:].split(" ; ")
+        its = op.split(" ", 1)[1].split(" ; ")
         m = re.search(r"at (\d+)", line)
         k = int(m.group(1)) if m else len(its)
-        breaks.append(dict(what=f"site-level replay: a controlled execution of the real code is not a run of Model/Transport "
+        breaks.append(dict(what=f"site-level replay: a controlled execution of the real code is not a run of {'Model/Conn' if conn else 'Model/Transport'} "
                                 f"(session {idx}, flavour {fl}, endpoint {ep}): {line[:400]}",
-                           correspondence="Model/Replay.replay (T.step) vs harness mode session",
-                           replay=dict(mode="session", seed=seed, session=idx, flavour=fl, endpoint=ep, env=mode_env,
+                           correspondence=("Model/ConnReplay.replay (Cn.step) vs harness mode conn" if conn else
+                                           "Model/Replay.replay (T.step) vs harness mode session"),
+                           replay=dict(mode="conn" if conn else "session", seed=seed, session=idx, flavour=fl, endpoint=ep, env=mode_env,
                                        last_actions=its[max(0, k - 40):k + 1])))
     if len(mine) > 3:
         breaks.append(dict(what=f"site-level replay: {len(mine) - 3} further divergences of the same run"))
